@@ -178,7 +178,9 @@ func newIndexer(path string, store *ImmuStore, opts *Options) (*indexer, error) 
 
 	tx := NewTx(opts.MaxTxEntries, opts.MaxKeyLen)
 
-	kvs := make([]*tbtree.KVT, store.maxTxEntries*opts.IndexOpts.MaxBulkSize)
+	// an entry may contribute two items to a bulk: the entry itself and, with injective mapping,
+	// the tombstone of the key it was previously mapped to
+	kvs := make([]*tbtree.KVT, 2*store.maxTxEntries*opts.IndexOpts.MaxBulkSize)
 	for i := range kvs {
 		// vLen + vOff + vHash + txmdLen + txmd + kvmdLen + kvmd
 		elen := lszSize + offsetSize + sha256.Size + sszSize + maxTxMetadataLen + sszSize + maxKVMetadataLen
